@@ -13,6 +13,7 @@ LEVEL_TEXT = (
     'Reactor/Peer/Protocol/Connection on a virtual-time loop; the oracle is reference framing of the same bytes. '
     'Sampling, not proof: evidence counts distinct schedule signatures.'
     " Some sessions answer the peer's OPEN (`local-as auto`)."
+    ' With Extended Message negotiated, NOTIFICATIONs and unknown types above 4096 bytes.'
 )
 LEVEL_NOTE = 'trusts: the simulated TCP byte-stream model (exasim.net), CPython asyncio, the reference framer in refbgp'
 DESIGN_REF = 'DESIGN.md section 5, C06'
